@@ -817,6 +817,11 @@ fn c02_data<const L: usize, const EXP: bool>(v6: bool) {
             let vs = mk_sig(cfg, shv);
             let ok = is_okf(vs.verify(&*key, &doc_b[..]));
             kani::cover!(ok, "an untampered signature verifies");
+            let all_equal = eq_bytes(&doc_a, &doc_b) && typ_a == 0 && pk_a == pk_b && t_a == t_b && tt_a == tt_b && c_a == c_b
+                && b_a[0] == b_b[0] && b_a[1] == b_b[1] && (!v6 || salt_a[3] == salt_b[3]) && shv[0] == w[0] && shv[1] == w[1];
+            if all_equal {
+                assert!(ok, "C06/C02: an untampered data signature (every field as signed) is rejected by Signature::verify");
+            }
             if ok {
                 assert!(eq_bytes(&doc_a, &doc_b), "C02: verify accepted a different document");
                 assert!(typ_a == 0, "C02: verify accepted a signature whose signed type octet differs");
